@@ -116,7 +116,22 @@ func (tree *Tree[T]) Add(pattern string, h T, ms []types.Middleware[T], methods 
 		return err
 	}
 
-	n, err := tree.getNode(pattern)
+	if len(methods) == 0 {
+		methods = AnyMethods
+	}
+
+	segs, err := tree.interceptors.Split(pattern)
+	if err != nil {
+		return err
+	}
+
+	// 在创建节点之前验证 methods。getNode 会创建甚至拆分节点，
+	// 拆分会改变同级节点的顺序，被拒绝的注册不应该改变路由树的结构。
+	if err := tree.checkMethods(tree.Find(pattern), methods); err != nil {
+		return err
+	}
+
+	n, err := tree.node.getNode(segs)
 	if err != nil {
 		return err
 	}
@@ -125,10 +140,8 @@ func (tree *Tree[T]) Add(pattern string, h T, ms []types.Middleware[T], methods 
 		n.handlers = make(map[string]T, handlersSize)
 	}
 
-	if len(methods) == 0 {
-		methods = AnyMethods
-	}
-	return n.addMethods(h, pattern, ms, methods...)
+	n.addMethods(h, pattern, ms, methods...)
+	return nil
 }
 
 func (tree *Tree[T]) checkAmbiguous(pattern string) error {
@@ -207,15 +220,6 @@ func (tree *Tree[T]) Remove(pattern string, methods ...string) {
 	}
 
 	tree.recountMethods() // methods 中可能包含了该节点上并不存在的请求方法，所以重新统计。
-}
-
-// 获取指定的节点，若节点不存在，则在该位置生成一个新节点。
-func (tree *Tree[T]) getNode(pattern string) (*node[T], error) {
-	segs, err := tree.interceptors.Split(pattern)
-	if err != nil {
-		return nil, err
-	}
-	return tree.node.getNode(segs)
 }
 
 // Handler 查找与参数匹配的处理对象
